@@ -1641,6 +1641,11 @@ class RawAlgorithmsMixIn:
         if out is None:
             raise NotImplementedError('should implement that')
 
+        if not numpy.may_share_memory(out, ybar_data):
+            # numpy.reshape had to copy in the forward sweep (non-contiguous
+            # input), so ybar is not a view of xbar: accumulate explicitly
+            out += numpy.reshape(ybar_data, out.shape)
+
         return numpy.reshape(out, x_data.shape)
 
     @classmethod
